@@ -104,9 +104,13 @@ class TapeRecorder:
         if power == 0:
             return self.__class__(self.algebra, expr='(1,)', keys=(0,))
 
-        res = self
+        if power < 0:
+            res = x = self.inv()
+            power *= -1
+        else:
+            res = x = self
         for i in range(1, power):
-            res = res.gp(self)
+            res = res.gp(x)
         return res
 
     # Unary operators
